@@ -436,6 +436,9 @@ class FeatureStructure:
 
         cur = self
         for part in path.split("."):
+            # Only features can be part of a path, not other attributes of the objects met along the way
+            if not isinstance(cur, FeatureStructure) or cur.type.get_feature(part) is None:
+                return None
             cur = getattr(cur, part, None)
             if cur is None:
                 return None
